@@ -7,32 +7,33 @@ namespace NodisVerif.Proofs.C11
 open NodisVerif.Store NodisVerif.Codec NodisVerif.Spec.Persist
 open NodisVerif.Proofs.AListLemmas NodisVerif.Proofs.AListLemmas2 NodisVerif.Proofs.C11AList
 
-/-- one gc step, the backend rejects the write: the record stays hot, modified, same value -/
+/-- one gc step whose write the backend rejects: the record is put back exactly as it was and the
+    backend is not touched; only the fault counter moves -/
+theorem gcStep_failed_eq {s : MState} {now : Int} {k : Bytes} {m : Meta} (hok : m.isOk = true)
+    (hexp0 : m.expired now = false) (hmod : m.isModified = true) (hf : 0 < s.failSet) :
+    gcStep now s (k, m) = putMeta { s with failSet := s.failSet - 1 } k m := by
+  unfold gcStep
+  simp only [hok, Bool.not_true, Bool.or_false, hexp0, Bool.false_eq_true, if_false, hmod, if_true,
+    persist_fail s k m hf, Bool.not_false]
+
+/-- the same for a flush step -/
+theorem flushStep_failed_eq {s : MState} {now : Int} {k : Bytes} {m : Meta} (hok : m.isOk = true)
+    (hexp0 : m.expired now = false) (hmod : m.isModified = true) (hf : 0 < s.failSet) :
+    flushStep now s (k, m) = putMeta { s with failSet := s.failSet - 1 } k m := by
+  unfold flushStep
+  simp only [hok, Bool.not_true, Bool.or_false, hexp0, Bool.false_eq_true, if_false, hmod,
+    persist_fail s k m hf]
+
+/-- one gc step, the backend rejects the write: the record stays as it is (hot, modified, same value,
+    same `stored`), the backend is unchanged -/
 theorem gcStep_failed {s : MState} {t now : Int} (h : StoreInvX s none t) {k : Bytes} {m : Meta}
     (hm : AList.get? s.index k = some m) (hexp0 : m.expired now = false) (hmod : m.isModified = true)
     (hf : 0 < s.failSet) :
     ∃ m1, AList.get? (gcStep now s (k, m)).index k = some m1 ∧ m1.isModified = true ∧
-      m1.value = m.value ∧ m1.exp = m.exp ∧ (gcStep now s (k, m)).failSet = s.failSet - 1 := by
-  have r := h.recs k m hm
-  have hsome : m.value.isSome = true := by
-    simp only [Meta.isModified, Bool.and_eq_true] at hmod; exact hmod.1
-  obtain ⟨v, hv⟩ := Option.isSome_iff_exists.mp hsome
-  have ps := persist_spec h hm hv
-  unfold gcStep
-  simp only [r.ok, Bool.not_true, Bool.or_false, hexp0, Bool.false_eq_true, if_false, hmod, if_true]
-  generalize persist s k m = pr at ps
-  obtain ⟨s1, m1, ok⟩ := pr
-  obtain ⟨i1, p1, n1, so, others, rc, pok, pfail⟩ := ps
-  simp only at i1 p1 n1 so others rc pok pfail ⊢
-  cases ok with
-  | true => have := (pok rfl).1; omega
-  | false =>
-    simp only [Bool.not_false, if_true]
-    obtain ⟨_, f2, _⟩ := pfail rfl
-    refine ⟨m1, by simp [putMeta, get?_set], ?_, by rw [rc], by rw [rc], f2⟩
-    rw [rc]
-    simp only [Meta.isModified] at hmod ⊢
-    exact hmod
+      m1.value = m.value ∧ m1.exp = m.exp ∧ (gcStep now s (k, m)).failSet = s.failSet - 1 ∧
+      m1 = m ∧ (gcStep now s (k, m)).disk = s.disk := by
+  rw [gcStep_failed_eq (h.recs k m hm).ok hexp0 hmod hf]
+  exact ⟨m, by simp [putMeta, get?_set], hmod, rfl, rfl, rfl, rfl, rfl⟩
 
 /-- one gc step without a rejected write leaves the record (if it is still there) unmodified -/
 theorem gcStep_clean {s : MState} {t now : Int} (h : StoreInvX s none t) {k : Bytes} {m : Meta}
@@ -193,5 +194,100 @@ theorem gc_all_fail {s : MState} {t now : Int} (h : StoreInvX s none t) (ht : t 
   rw [(syncShared_fields _).1]
   exact fold_all_fail ht s.index nd s h (fun p hp => hnil p.1 p.2 (hget p hp)) hget hf (k, m)
     (mem_of_get? _ _ _ hm) hal hmod
+
+/-- backend entries of a name that is not in the list are not touched by the steps of a pass -/
+theorem fold_gc_disk_untouched {t now : Int} (ht : t ≤ now) (l : List (Bytes × Meta))
+    (nd : (l.map (·.1)).Nodup) (cur : MState) (h : StoreInvX cur none t)
+    (hnil : ∀ p ∈ l, NilOK cur.pebble p.2) (hget : ∀ p ∈ l, AList.get? cur.index p.1 = some p.2)
+    (k : Bytes) (hk : k ∉ l.map (·.1)) :
+    ∀ dk e, e.name = k →
+      (AList.get? (l.foldl (gcStep now) cur).disk dk = some e ↔ AList.get? cur.disk dk = some e) := by
+  have key := fold_pass (gcStep now)
+    (fun c => StoreInvX c none t ∧ c.pebble = cur.pebble ∧
+      ∀ dk e, e.name = k → (AList.get? c.disk dk = some e ↔ AList.get? cur.disk dk = some e))
+    (fun _ _ => True) (fun k' m => NilOK cur.pebble m ∧ k' ≠ k)
+    (by
+      intro c k' m ⟨p1, p2, p3⟩ he hm
+      have sp := gcStep_spec (now := now) p1 ht hm (fun _ => by rw [p2]; exact he.1)
+      refine ⟨⟨sp.inv, by rw [sp.peb, p2], fun dk e hn => ?_⟩, trivial, sp.idx, fun _ _ _ => trivial⟩
+      rw [sp.disk dk e (by rw [hn]; exact fun c => he.2 c.symm)]
+      exact p3 dk e hn)
+    l nd (fun p hp => ⟨hnil p hp, fun c => hk (by rw [← c]; exact List.mem_map.mpr ⟨p, hp, rfl⟩)⟩)
+    cur ⟨h, rfl, fun _ _ _ => Iff.rfl⟩ hget
+  exact key.1.2.2
+
+/-- if the backend rejects every write of a pass, the record of every live modified key is exactly
+    what it was (in particular `stored`), and the backend entries of that name are untouched -/
+theorem fold_all_fail_keeps {t now : Int} (ht : t ≤ now) : ∀ (l : List (Bytes × Meta)), (l.map (·.1)).Nodup →
+    ∀ cur, StoreInvX cur none t → (∀ p ∈ l, NilOK cur.pebble p.2) →
+    (∀ p ∈ l, AList.get? cur.index p.1 = some p.2) → l.length ≤ cur.failSet →
+    ∀ p ∈ l, p.2.expired now = false → p.2.isModified = true →
+      AList.get? (l.foldl (gcStep now) cur).index p.1 = some p.2 ∧
+      ∀ dk e, e.name = p.1 →
+        (AList.get? (l.foldl (gcStep now) cur).disk dk = some e ↔ AList.get? cur.disk dk = some e) := by
+  intro l
+  induction l with
+  | nil => intro _ _ _ _ _ _ p hp; cases hp
+  | cons a rest ih =>
+    intro nd cur h hnil hget hlen p hp hal hmod
+    obtain ⟨k, m⟩ := a
+    simp only [List.map_cons, List.nodup_cons] at nd
+    obtain ⟨hk, nd'⟩ := nd
+    have hm := hget (k, m) (by simp)
+    have sp := gcStep_spec (now := now) h ht hm (fun _ => hnil (k, m) (by simp))
+    have hfs := gcStep_failSet (now := now) h hm
+    simp only [List.length_cons] at hlen
+    have hget' : ∀ q ∈ rest, AList.get? (gcStep now cur (k, m)).index q.1 = some q.2 := by
+      intro q hq
+      have hne : q.1 ≠ k := by
+        intro e; apply hk; rw [← e]; exact List.mem_map.mpr ⟨q, hq, rfl⟩
+      rw [sp.idx q.1 hne]; exact hget q (by simp [hq])
+    have hnil' : ∀ q ∈ rest, NilOK (gcStep now cur (k, m)).pebble q.2 := by
+      intro q hq; rw [sp.peb]; exact hnil q (by simp [hq])
+    simp only [List.foldl_cons]
+    rcases List.mem_cons.mp hp with rfl | hp
+    · obtain ⟨m1, g1, _, _, _, _, g6, g7⟩ := gcStep_failed (now := now) h hm hal hmod (by omega)
+      subst g6
+      refine ⟨?_, fun dk e hn => ?_⟩
+      · rw [fold_gc_untouched ht rest nd' _ sp.inv hnil' hget' k hk]
+        exact g1
+      · rw [fold_gc_disk_untouched ht rest nd' _ sp.inv hnil' hget' k hk dk e hn, g7]
+    · obtain ⟨i1, i2⟩ := ih nd' _ sp.inv hnil' hget' (by omega) p hp hal hmod
+      refine ⟨i1, fun dk e hn => ?_⟩
+      have hne : p.1 ≠ k := by
+        intro e; apply hk; rw [← e]; exact List.mem_map.mpr ⟨p, hp, rfl⟩
+      rw [i2 dk e hn]
+      exact sp.disk dk e (by rw [hn]; exact hne)
+
+/-- a pass during which the backend rejects every write: the record of a live modified key is
+    exactly what it was, and every backend entry of that name is still in place (on Pebble: the very
+    same entry; in memory: the same shared object) -/
+theorem gc_all_fail_keeps {s : MState} {t now : Int} (h : StoreInvX s none t) (ht : t ≤ now) (hnil : NilFree s)
+    (hc : s.closed = false) (hf : s.index.length ≤ s.failSet) {k : Bytes} {m : Meta}
+    (hm : AList.get? s.index k = some m) (hal : m.expired now = false) (hmod : m.isModified = true) :
+    AList.get? (gc s now).index k = some m ∧
+    ∀ dk e0, AList.get? s.disk dk = some e0 → e0.name = k →
+      ∃ e, AList.get? (gc s now).disk dk = some e ∧ e.name = e0.name ∧ e.exp = e0.exp ∧ e.oid = e0.oid ∧
+        (s.pebble = true → e = e0) := by
+  have hpb : (s.index.foldl (gcStep now) s).pebble = s.pebble := by
+    have := (gc_spec h ht hnil).peb
+    rw [gc_eq] at this
+    simp only [hc, Bool.false_eq_true, if_false] at this
+    rw [(syncShared_fields _).2.1] at this
+    exact this
+  rw [gc_eq]
+  simp only [hc, Bool.false_eq_true, if_false]
+  obtain ⟨nd, hget, _⟩ := index_pass_facts h.idxSorted
+  obtain ⟨a, b⟩ := fold_all_fail_keeps ht s.index nd s h (fun p hp => hnil p.1 p.2 (hget p hp)) hget hf (k, m)
+    (mem_of_get? _ _ _ hm) hal hmod
+  refine ⟨by rw [(syncShared_fields _).1]; exact a, fun dk e0 he0 hn => ?_⟩
+  have he1 := (b dk e0 hn).mpr he0
+  cases hp : s.pebble with
+  | true =>
+    rw [syncShared_peb (by rw [hpb]; exact hp)]
+    exact ⟨e0, he1, rfl, rfl, rfl, fun _ => rfl⟩
+  | false =>
+    refine ⟨ssEnt _ e0, by rw [get?_syncShared_disk (by rw [hpb]; exact hp), he1]; rfl, by simp, by simp, by simp,
+      fun c => by cases c⟩
 
 end NodisVerif.Proofs.C11
